@@ -20,6 +20,7 @@ broadcast use {axiom_string_ext, axiom_str_ext, axiom_str_of, axiom_vec_ext, axi
 //@include spec/rule_spec.rs
 //@include spec/nat_spec.rs
 //@include spec/nathead_spec.rs
+//@include spec/natrule_spec.rs
 
 pub mod fol { pub use super::*; }
 
@@ -74,6 +75,93 @@ pub open spec fn spec_p2f(t: asp::Term, int_vars: Seq<String>) -> Option<General
 //@     ensures r == spec_p2f(*t, int_vars@),
 //@ .closure "|d20_x| fol::GeneralTerm::IntegerTerm(d20_x)" as "|d20_x: IntegerTerm| -> (z: GeneralTerm)"
 //@     ensures z == GeneralTerm::IntegerTerm(d20_x)
+//@end
+
+// ---- the integer variables of a rule ---------------------------------------------------------------------------------------
+// ASSUMED CONTRACT of asp::Rule::terms (for_each / cloned().collect() chains in the syntax-tree module): the set of arguments and comparison sides of the rule
+impl asp::Rule {
+    #[verifier::external_body]
+    pub fn terms(&self) -> (r: IndexSet<asp::Term>)
+        ensures forall|t: asp::Term| r@.contains(t) == #[trigger] top_term(*self, t),
+    { unimplemented!() }
+}
+
+//@fn src/translating/formula_representation/natural.rs :: fn int_variables
+//@ .ret res
+//@ .attr #[verifier::loop_isolation(false)]
+//@ .spec
+//@     ensures int_vars_ok(res@, *r),
+//@ .hint before "for term in r.terms()"
+//@     proof {
+//@         assert forall|v0: Seq<String>, x: String, n: Seq<char>| #[trigger] is_int_var(seq_insert(v0, x), n) == (is_int_var(v0, n) || x@ == n) by { lemma_member_insert(v0, x, n); }
+//@         assert forall|vs: Seq<asp::Variable>, k: int, n: Seq<char>| 0 <= k < vs.len() implies #[trigger] has_var_name(vs.take(k + 1), n) == (has_var_name(vs.take(k), n) || vs[k].0@ == n) by { lemma_has_var_name_take(vs, k, n); }
+//@         assert forall|vs: Seq<asp::Variable>, t: asp::Term, n: Seq<char>| (forall|k: VKey| asp_in_term(t, k) ==> has_key(vs, k)) && (forall|x: asp::Variable| vs.contains(x) ==> asp_in_term(t, #[trigger] asp_var_key(x)))
+//@             implies #[trigger] has_var_name(vs, n) == #[trigger] asp_in_term(t, (n, Sort::General)) by { lemma_var_names_of_term(vs, t, n); }
+//@         assert forall|vs: Seq<asp::Variable>| #[trigger] vs.take(vs.len() as int) =~= vs by {}
+//@         assert forall|vs: Seq<asp::Variable>, n: Seq<char>| !#[trigger] has_var_name(vs.take(0), n) by {}
+//@     }
+//@ .loop 1 as it
+//@     invariant
+//@         0 <= it.index@ <= it.seq().len(),
+//@         forall|t: asp::Term| it.seq().contains(t) == #[trigger] top_term(*r, t),
+//@         forall|n: Seq<char>| is_int_var(vars@, n) == #[trigger] just_terms(it.seq(), it.index@ as int, n),
+//@         it.index@ == it.seq().len() ==> forall|n: Seq<char>| #[trigger] is_int_var(vars@, n) == just_top(*r, n),
+//@ .hint before "match term {"
+//@     let ghost tset = it.seq();
+//@     let ghost ti = it.index@ as int;
+//@     let ghost v0 = vars@;
+//@     proof {
+//@         assert(term == tset[ti]);
+//@         assert forall|k: VKey| #[trigger] asp_in_term(tset[ti], k) == (match tset[ti] {
+//@             asp::Term::PrecomputedTerm(_) => false,
+//@             asp::Term::Variable(x) => k == asp_var_key(x),
+//@             asp::Term::UnaryOperation { op, arg } => asp_in_term(*arg, k),
+//@             asp::Term::BinaryOperation { op, lhs, rhs } => asp_in_term(*lhs, k) || asp_in_term(*rhs, k) }) by {}
+//@         assert forall|n: Seq<char>| #[trigger] just_terms(tset, ti + 1, n) == (just_terms(tset, ti, n) || (is_op(tset[ti]) && asp_in_term(tset[ti], (n, Sort::General)))) by { lemma_just_terms_step(tset, ti, n); }
+//@     }
+//@ .loop 2 as it2
+//@     invariant
+//@         0 <= it2.index@ <= it2.seq().len(),
+//@         forall|n: Seq<char>| has_var_name(it2.seq(), n) == #[trigger] asp_in_term(*arg, (n, Sort::General)),
+//@         forall|n: Seq<char>| #[trigger] is_int_var(vars@, n) == (is_int_var(v0, n) || has_var_name(it2.seq().take(it2.index@ as int), n)),
+//@ .loop 3 as it3
+//@     invariant
+//@         0 <= it3.index@ <= it3.seq().len(),
+//@         forall|n: Seq<char>| has_var_name(it3.seq(), n) == #[trigger] asp_in_term(*lhs, (n, Sort::General)),
+//@         forall|n: Seq<char>| #[trigger] is_int_var(vars@, n) == (is_int_var(v0, n) || has_var_name(it3.seq().take(it3.index@ as int), n)),
+//@ .loop 4 as it4
+//@     invariant
+//@         0 <= it4.index@ <= it4.seq().len(),
+//@         forall|n: Seq<char>| has_var_name(it4.seq(), n) == #[trigger] asp_in_term(*rhs, (n, Sort::General)),
+//@         forall|n: Seq<char>| #[trigger] is_int_var(vars@, n) == (is_int_var(v0, n) || asp_in_term(*lhs, (n, Sort::General)) || has_var_name(it4.seq().take(it4.index@ as int), n)),
+//@ .hint after "_ => (), }"
+//@     proof {
+//@         assert forall|n: Seq<char>| is_int_var(vars@, n) == #[trigger] just_terms(tset, ti + 1, n) by {}
+//@         assert forall|n: Seq<char>| ti + 1 == tset.len() implies #[trigger] is_int_var(vars@, n) == just_top(*r, n) by { lemma_just_top(*r, tset, n); }
+//@     }
+//@ .hint before "for f in r.body.formulas.iter()"
+//@     proof {
+//@         assert forall|n: Seq<char>| !just_cmps(r.body.formulas@, 0, n) by {}
+//@     }
+//@ .loop 5 as it5
+//@     invariant
+//@         it5.seq().len() == r.body.formulas@.len(), forall|q: int| 0 <= q < r.body.formulas@.len() ==> *it5.seq()[q] == r.body.formulas@[q],
+//@         forall|n: Seq<char>| #[trigger] is_int_var(vars@, n) == (just_top(*r, n) || just_cmps(r.body.formulas@, it5.index@ as int, n)),
+//@ .hint before "if let asp::AtomicFormula::Comparison(c) = f"
+//@     let ghost v1 = vars@;
+//@     let ghost fi = it5.index@ as int;
+//@     proof {
+//@         assert(*f == r.body.formulas@[fi]);
+//@         assert forall|n: Seq<char>| #[trigger] just_cmps(r.body.formulas@, fi + 1, n) == (just_cmps(r.body.formulas@, fi, n)
+//@             || (is_interval_eq(r.body.formulas@[fi]) && asp_in_term(r.body.formulas@[fi]->Comparison_0.lhs, (n, Sort::General)))) by { lemma_just_cmps_step(r.body.formulas@, fi, n); }
+//@     }
+//@ .loop 6 as it6
+//@     invariant
+//@         0 <= it6.index@ <= it6.seq().len(),
+//@         forall|n: Seq<char>| has_var_name(it6.seq(), n) == #[trigger] asp_in_term(c.lhs, (n, Sort::General)),
+//@         forall|n: Seq<char>| #[trigger] is_int_var(vars@, n) == (is_int_var(v1, n) || has_var_name(it6.seq().take(it6.index@ as int), n)),
+//@ .hint before "vars }"
+//@     proof { lemma_int_vars_final2(vars@, *r); }
 //@end
 
 // ---- heads: fresh integer variables for interval arguments -------------------------------------------------------------------
